@@ -28,8 +28,8 @@ check("C09", "other", "Vocabulary equality with the specification, refusing defa
       "Index expressions inside parser loops not decided.", T_AST + "table extraction and exhaustive evaluation of helper switches over reachable code ranges", "DESIGN §5 C09")
 check("C10", "proof", "Complete: the environmental scores are functions of effective values only (symbolic trees for v3, complete truth tables for every v4 local and EQ predicate), defaults for undefined metrics equal the specification's, supplemental metrics are never read.",
       "Trusted: the M3/M7/M8 evaluators of the checker; for v4 the loop nest is covered through the classification of every value passed to severityDistance.", T_AST + "non-interference by symbolic formula trees (v3) and complete finite truth tables over (base, Modified) code pairs (v4)", "DESIGN §5 C10")
-check("C11", "other", "Every score return is rounded or 0, rounding bodies end in /10 of an integer-valued float, v3 caps, lookup literals one-decimal in [0,10], no reachable panic.",
-      "Numeric range of the v2 arithmetic not decided.", T_AST + "return-leaf analysis of the canonical trees, table checks", "DESIGN §5 C11")
+check("C11", "other", "Every score return is rounded or 0, rounding bodies end in /10 of an integer-valued float, v3 caps, lookup literals one-decimal in [0,10], no reachable panic; Rating's decision list accepts every value of the scale (threshold-partition regions, R15.region).",
+      "Numeric range of the v2 arithmetic not decided.", T_AST + "return-leaf analysis of the canonical trees, table checks, threshold partition of Rating", "DESIGN §5 C11")
 check("C12", "other", "Exhaustive exact-rational monotonicity: v2/v3 canonical formula trees over all value combinations (R12.real); v4 score model over 4.9 M single-metric steps x (level, distance) classes (R12.v4real); plus lookup edges, severity orders, weight tables.",
       "Decided for the real-valued model of all versions; float64 rounding is covered by C03/C04 rules for v3/v4; v2 half-way ties are inherently open. v3.1 EnvironmentalScore over all E/RL/RC values in the thorough tier only.", T_AST + "order checks over extracted tables against the specification severity orders", "DESIGN §5 C12")
 check("C13", "other", "Headers pairwise prefix-incomparable and equal to the specification; header guard is the first statement; v2 starts at 'AV'.",
@@ -42,7 +42,7 @@ check("C16", "proof", "Complete: all byte reads are whole-field definedness pred
       "Relies on C07's layout (premises R07.store/R07.preserve for v4 included).", T_AST + "tested-bit-set analysis (including bit locals and OR-ed bytes) plus exhaustive finite enumeration over definedness", "DESIGN §5 C16")
 check("C17", "other", "Compiler escape census with every heap site classified and budgeted; lenVec >= emitted length for every object; no allocating construct or non-allow-listed callee on API paths.",
       "Decided for the installed toolchains only (go1.23.5 quick; plus go1.26.8 thorough); pool steady state trusted.", "compiler escape analysis (-gcflags=-m) parsed and classified against the AST, exhaustive per-component comparison of lenVec with the serializer table, construct/callee census", "DESIGN §5 C17")
-check("C18", "other", "Census of every error-producing site with its guard kind and documented error value.",
+check("C18", "other", "Census of every error-producing site with its guard kind and documented error value; which values are illegal and which abbreviations unknown is the specification vocabulary (R09.values/R09.labels); the abbreviation a typed error names is the element's part before its first ':' (R06.cut).",
       "Two sites observed, not asserted (DESIGN §9 O1/O2).", T_AST + "error value of every rejected transition of the cursor automaton (v2/v4) and of every subset of missing / repeated / unknown metrics in the symbolic defined-once model (v3); return-site census with guard classification; typed-error construction and sentinel census", "DESIGN §5 C18, AS-BUILT 23, 27")
 
 NOT_YET = {}
